@@ -395,7 +395,8 @@ async fn rex(w: Arc<World>, mut conn: ServerConn, p: Arc<Plan>, sh: Arc<Mutex<Sh
                 // nobody's identifier, now or later in this run (a run wraps the counter a few dozen times at most):
                 // far away, or differing from the caller's in one field only
                 let ghost = match &from {
-                    Val::Pid { node, id, serial, creation } => match w.draw(3) {
+                    Val::Pid { node, id, serial, creation } => match w.draw(4) {
+                        3 if *creation != 0 => Val::Pid { node: node.clone(), id: *id, serial: *serial, creation: 0 },
                         0 => Val::Pid { node: node.clone(), id: id.wrapping_add(500_000), serial: *serial, creation: *creation },
                         1 => Val::Pid { node: node.clone(), id: *id, serial: serial.wrapping_add(1000), creation: *creation },
                         _ => Val::Pid { node: node.clone(), id: *id, serial: *serial, creation: creation.wrapping_add(1) },
